@@ -1,3 +1,3 @@
 From Coq Require Import ExtrOcamlBasic.
-From CppUVerif Require Import C01_Model.
-Extraction "c01_model.ml" C01_Model.run C01_Model.spec C01_Model.valid.
+From CppUVerif Require Import C01_Model C01_Console.
+Extraction "c01_model.ml" C01_Console.run_x C01_Console.spec_x C01_Console.valid_x.
